@@ -81,7 +81,7 @@ def place(prog, ch, ntexts):
                 else:
                     t = text()
                     lines += [ind + pre + body[:k] + " & " + t, ind + "    &" + body[k:]]
-                    inner.append((t, "inner"))
+                    inner.append((t, "inner-trailing"))  # after code on its line: never a directive
                 line = None
         # ';' join with the next statement (comments of the physical line are
         # delivered after the LAST statement of the line)
@@ -178,7 +178,7 @@ def judge(src, placed, base_text, base_canon, std):
         nodes = [(type(n).__name__, str(n)) for n in walk(dmode.tree, (Comment, Directive)) if str(n).strip()]
         want_nodes = []
         for t, kind in placed:
-            d = is_directive_form(t) and not kind.startswith("trailing") and not (kind == "inner" and False)
+            d = is_directive_form(t) and not kind.startswith("trailing") and kind != "inner-trailing"
             want_nodes.append(("Directive" if d else "Comment", t))
         # inline comments (after code on the same line, incl. after '&') are never directives
         if [n for n in nodes] != want_nodes:
